@@ -20,7 +20,7 @@ import (
 
 type c16Cfg struct {
 	WindowNs int64  `json:"window_ns"`
-	FromH    string `json:"from_h"` // "" | one | below-tail | mid | store-head | above-store-head | net-head
+	FromH    string `json:"from_h"`    // "" | one | below-tail | mid | store-head | above-store-head | net-head
 	FromHash string `json:"from_hash"` // "" | tail | mid | head
 	BTNs     int64  `json:"bt_ns"`
 	TPNs     int64  `json:"tp_ns"`
@@ -30,10 +30,10 @@ type c16P struct {
 	Chain   string   `json:"chain"`    // regular | dense | irregular | halted | young
 	StoreLo int      `json:"store_lo"` // 0 = empty store
 	StoreHi int      `json:"store_hi"`
-	Net     int      `json:"net"`     // network head height at start (>= StoreHi)
-	AgeS    int      `json:"age_s"`   // age of the store head at start, seconds
-	Cfgs    []c16Cfg `json:"cfgs"`    // successive (re)configurations, one Syncer run each
-	Gossip  int      `json:"gossip"`  // gossip deliveries (one new header each, 1 block time apart) per run
+	Net     int      `json:"net"`    // network head height at start (>= StoreHi)
+	AgeS    int      `json:"age_s"`  // age of the store head at start, seconds
+	Cfgs    []c16Cfg `json:"cfgs"`   // successive (re)configurations, one Syncer run each
+	Gossip  int      `json:"gossip"` // gossip deliveries (one new header each, 1 block time apart) per run
 }
 
 const c16Spacing = 6 * time.Second
@@ -242,7 +242,7 @@ func c16Run(c *mon.Case, p c16P) {
 				c.Violation("start-fails/"+shape, fmt.Sprintf("Start with an honest, fully serving getter: %v", err), nil)
 				return
 			}
-			quiesce()
+			w.settle()
 			for g := 0; g < p.Gossip; g++ {
 				time.Sleep(c16Spacing)
 				w.g.setTip(tipNow())
@@ -252,7 +252,7 @@ func c16Run(c *mon.Case, p c16P) {
 				if err != nil {
 					c.Violation("gossip-refused/"+shape, fmt.Sprintf("valid adjacent network head %d refused: %v", tipNow(), err), nil)
 				}
-				quiesce()
+				w.settle()
 			}
 			w.g.setTip(tipNow())
 			hctx, hc := context.WithTimeout(context.Background(), time.Minute)
@@ -263,7 +263,7 @@ func c16Run(c *mon.Case, p c16P) {
 			} else if !chain.Canonical(sh) {
 				c.Violation("head-foreign/"+shape, fmt.Sprint(sh), nil)
 			}
-			quiesce()
+			w.settle()
 			// structure
 			w.storeCheck("structure/" + shape)
 			nh, nherr := w.st.Head(context.Background())
@@ -291,7 +291,7 @@ func c16Run(c *mon.Case, p c16P) {
 			}
 			_ = w.syn.Stop(context.Background())
 			w.started = false
-			quiesce()
+			w.settle()
 			if c.Violated() {
 				break
 			}
